@@ -62,6 +62,8 @@ def build_site(site='A', workers=1, facility=False, second_switch=False, prefix=
             # a second link between the SAME two ports (two fibres of one trunk)
             t.add_link(name=f'{p}-lss2', node_id=f'{p}-lss2', ltype=LinkType.L2Path, interfaces=[q, ports[nports - 1]])
             ids['sw2']['link2'] = f'{p}-lss2'
+            # ... and a stitching element nothing is attached to (yet): it still belongs in every partition
+            t.add_node(name=f'{p}-iso', node_id=f'{p}-iso', site=site, ntype=NodeType.Switch, stitch_node=True)
     return t, ids
 
 
